@@ -53,6 +53,10 @@ def _stream_class():
 
         def write_to_fd(self, data):
             tr = self.proto.tr
+            if getattr(self, 'stall_until', 0) > self.proto.sim.now and \
+                    not tr.closing:
+                # the peer's window is full
+                raise BlockingIOError(errno.EWOULDBLOCK, 'would block')
             if tr.closing:
                 # the peer is gone / the connection was reset
                 raise ConnectionResetError(errno.ECONNRESET,
